@@ -83,7 +83,7 @@ def k7_part(ctx: vlib.Ctx):
             ctx.not_shown("translation validation K7", str([flagsets[i] for i in bad[:5]]))
 
 
-def probe(ctx, t, fam, ns, dec, d, nontrivial):
+def probe(ctx, t, fam, ns, dec, d, nontrivial, entry="codec_decode"):
     ctx.count((t.key(), repr(d)), nontrivial=nontrivial)
     d0 = copy.deepcopy(d)
     try:
@@ -107,7 +107,7 @@ def probe(ctx, t, fam, ns, dec, d, nontrivial):
     ctx.hist("oracle_outcomes", got[0] + "/" + exp[0])
     if what:
         ctx.fail(f"{gen.py_ann(t)} <- {gen.py_src(d0)[:160]}: {what}",
-                 {"entry": "codec_decode", "source": fam.source(), "type": gen.py_ann(t), "input_src": gen.py_src(d0),
+                 {"entry": entry, "source": fam.source(), "type": gen.py_ann(t), "input_src": gen.py_src(d0),
                   "observed": ("ok:" + gen.py_src(got[1])) if got[0] == "ok" else "exc:" + got[1],
                   "expected": ("ok:" + gen.py_src(exp[1])) if exp[0] == "ok" else "exc:*"},
                  {"kind": "unpacked-tuple-short-input"} if (got[0] == "ok" and exp[0] != "ok" and "too few items" in exp[1]
@@ -186,6 +186,36 @@ def indexed_part(ctx):
         fam.dispose()
 
 
+def as_dict_part(ctx):
+    """the namedtuple_as_dict form (dialect option, or Config option of a holder dataclass): items are looked up by field name, a missing key is legal exactly for a field with a
+    default (which it then takes), surplus keys are ignored; inputs = encoder output, every single key removed / one surplus key at every
+    nested dict, every nested list cut short.  Guards the fix 28df7ca (defaults never applied in this form)."""
+    from mashumaro.codecs.basic import BasicDecoder, BasicEncoder
+    rng = ctx.rng
+    ref.NT_AS_DICT = True
+    try:
+        for fam, ns, t, ty, dia in tyoracle.as_dict_stream(rng, ctx.budget(50, 300)):
+            try:
+                kw = {"default_dialect": dia} if dia else {}
+                entry = "codec_decode_as_dict" if dia else "codec_decode"
+                dec, enc = BasicDecoder(ty, **kw), BasicEncoder(ty, **kw)
+            except Exception as e:
+                ctx.fail(f"as_dict codec for {gen.py_ann(t)} cannot be built: {type(e).__name__}: {e}",
+                         {"entry": "codec_build", "source": fam.source(), "type": gen.py_ann(t), "expected": "ok"}, {"kind": "decoder-build"})
+                continue
+            vg = gen.ValueGen(rng, fam)
+            try:
+                w = enc.encode(vg.value(t))
+            except Exception:
+                continue
+            ctx.hist("as_dict_root", t.kind if dia else "config")
+            probe(ctx, t, fam, ns, dec, w, False, entry=entry)
+            for d in tyoracle.key_removals(w) + truncations(w, 6):
+                probe(ctx, t, fam, ns, dec, d, True, entry=entry)
+    finally:
+        ref.NT_AS_DICT = False
+
+
 def run(ctx: vlib.Ctx):
     from mashumaro.codecs.basic import BasicDecoder, BasicEncoder
 
@@ -205,7 +235,7 @@ def run(ctx: vlib.Ctx):
                         "inputs with one nested sequence cut short and every prefix of an unpacked-tuple input); constant positions are recursive (fixed tuples of constants, "
                         "default-less NamedTuples of constants); nested Unpack / TypeVarTuple segments are oracle only; sequence-like "
                         "inputs of a NamedTuple/fixed tuple other than list/tuple/str (bytes, dicts with integer keys, NamedTuple instances) are not modelled; "
-                        "namedtuple_as_dict and generic NamedTuples/TypedDicts are oracle only"]
+                        "namedtuple_as_dict (dialect option; reference = lookup by field name, defaults for missing keys of defaulted fields) and generic NamedTuples/TypedDicts are oracle only"]
 
     k7_part(ctx)
     ctx.coqchk(["VerifProps.C03_unpack", "VerifProps.C03_tuple_kernel"])
@@ -233,14 +263,20 @@ def run(ctx: vlib.Ctx):
                 probe(ctx, t, fam, ns, dec, d, j > 0)
         fam.dispose()
     indexed_part(ctx)
+    as_dict_part(ctx)
 
 
 def replay(rep: dict) -> int:
     if rep.get("expected") == "exc:*":
         ns = gen.build_module(rep["source"])
         from mashumaro.codecs.basic import BasicDecoder
+        from mashumaro.dialect import Dialect
+
+        class AsDict(Dialect):
+            namedtuple_as_dict = True
+        kw = {"default_dialect": AsDict} if rep.get("entry") == "codec_decode_as_dict" else {}
         try:
-            got = BasicDecoder(eval(rep["type"], dict(ns))).decode(eval(rep["input_src"], dict(ns)))
+            got = BasicDecoder(eval(rep["type"], dict(ns)), **kw).decode(eval(rep["input_src"], dict(ns)))
             print("REPRODUCED: returned", gen.py_src(got), "where the reference is undefined")
             return 1
         except Exception as e:
